@@ -21,7 +21,9 @@ def run(ctx, res):
     # the parser side of that clause is that the value depends on the document's abstract content only (P = R on the outputs)
     from .. import parsercheck
     res.rules_run.append("C10.parse (the strict parser's value is the document's abstract content - product findings on the output channels: whitespace is ignored, every escape spelling of a character decodes to that character, numbers and structure as written)")
-    parsercheck.apply(ctx, res, ["C02.", "E2."], strict_only=True, rename="C10.parse")
+    # (the spelling of numbers is not part of it: canonicalisation replaces every number by the rendering of its double, so a
+    # parser that changed a spelling without changing the value would not break C10; whether it changes the value is not decided here)
+    parsercheck.apply(ctx, res, ["C02.str", "C02.struct", "E2."], strict_only=True, rename="C10.parse")
     res.notes.append("not decided: idempotence and spelling-independence of the numeric step (json-number / ryu-js)")
 
 
